@@ -107,6 +107,8 @@ def spine(tier, seed):
                 out.append(dict(base, prod='B-x', obs_style=D.ID_STYLES[i],
                                 samp_style=D.ID_STYLES[(i + seed) % ns], obs_md=D.MD_KINDS[k],
                                 samp_md=D.MD_KINDS[(k + seed) % nk], header=1, layout=lay))
+            out.append(dict(base, prod='B-ids', obs_style='edgews', samp_style='edgews', obs_md='textws',
+                            samp_md='textws', header=1, layout=lay))
             for hd, g in itertools.product(range(len(D.HEADERS)), range(len(GMD))):
                 out.append(dict(base, prod='B-hdr', header=hd, gmd=g, layout=lay))
             if lay == 'csr':
